@@ -8,6 +8,8 @@
 (* <<4, h, level, size class, c1, .., cn>> = a new record built by n AddAttrs  *)
 (* calls of c1..cn attributes and handled by h, <<5, h, r>> = the value of     *)
 (* record r (numbered in order of creation) handled again by h,                *)
+(* <<6, k>> = the next Write fails (1 error, 2 short write, 3 panic); rets     *)
+(* says how each Handle call of the path ends (0 = its line is written),       *)
 (* <<3, h>> = h.WithGroup(...) (panics).  The ids of a batch are the last k    *)
 (* entries of the new handler's attrs, those of a record the first n entries   *)
 (* of its predicted line.                                                      *)
@@ -30,7 +32,7 @@ GInit == Init /\ hist = <<>>
 GNext ==
     /\ steps < MaxSteps
     /\ steps' = steps + 1
-    /\ \E h \in Handlers :
+    /\ \/ \E h \in Handlers :
          \/ \E k \in Batches :
               /\ Derive(h, k)
               /\ hist' = Append(hist, <<1, h, k>>)
@@ -45,11 +47,14 @@ GNext ==
          \/ /\ ngroups < MaxGroups
             /\ WithGroup(h)
             /\ hist' = Append(hist, <<3, h>>)
+       \/ \E k \in Faults : ArmFault(k) /\ hist' = Append(hist, <<6, k>>)
 GSpec == GInit /\ [][GNext]_gvars
 
 Vector == [thr   |-> thr,
            ops   |-> hist,
            attrs |-> attrs,
+           rets  |-> rets,
+           recs  |-> [r \in 1..Len(recs) |-> recs[r].attrs],
            out   |-> [i \in 1..Len(out) |->
                         [h |-> out[i].h, lv |-> out[i].lv, r |-> out[i].r, n |-> Len(out[i].rec),
                          err |-> Bit(ExpectedLine(out[i].h, out[i].lv, out[i].r, out[i].rec).sev = "ERROR"),
